@@ -184,8 +184,10 @@ impl BoundOps for Sonic {
     fn shifted_from_plain(_c: &Comm<Self>) -> Option<Comm<Self>> {
         None
     }
-    fn admissible(_z: &Fr, _v: &Fr, _d: usize, _d2: usize) -> bool {
-        true
+    fn admissible(_z: &Fr, v: &Fr, _d: usize, _d2: usize) -> bool {
+        // a commitment made under d' and presented under d > d' is a valid bounded commitment to
+        // x^(d-d')*p; with the honest proof it verifies exactly when p(z) = 0
+        !v.is_zero()
     }
 }
 
@@ -577,7 +579,7 @@ pub fn spec() -> PropertySpec {
     add!(Ipa);
     PropertySpec {
         id: "C04",
-        rule: "(Every verification of a case goes either through check or - one case in three - through batch_check on a one-label query set.) (iv) key requests whose enforced-bound list contains a bound in (supported, max] or beyond max (Marlin, Sonic): if trim serves such a key (MarlinKZG10 does for bounds <= max, by design), commit of a polynomial whose degree exceeds the supported degree must still fail. Mislabel group: one case in three presents the commitment under a bound outside the enforced set. Three groups per scheme (Marlin, Sonic, IPA) over generated keys (max degree, supported degree, enforced set B, unsorted/duplicated): (i) admission grid - declared bound d drawn from B / from 1..=supported outside B / beyond supported, degree in {d-1,d,d+1}: commit (and open with a relabelled polynomial) must return Err or abort exactly when deg > d or d not in B or deg > supported, and an admissible boundary case must commit, open and verify; (ii) mislabel - commit under d' in B, present as d in B, d != d', deg <= min(d,d'), with the honest proof and with the library prover run on the relabelled polynomial and the old state: not accepted; (iii) the degree-bound part dropped (with and without the label), taken from another polynomial, or replaced by the plain commitment: not accepted. Points for (ii),(iii) are admissible by construction (Marlin: p(z) != 0; IPA: also z != 0 and z^(d-d') != 1; Sonic: any); polynomials in (iii) are non-constant. Non-trivial: d != max(B) or hiding present, and for (i) |deg - d| <= 1.",
+        rule: "(Every verification of a case goes either through check or - one case in three - through batch_check on a one-label query set.) (iv) key requests whose enforced-bound list contains a bound in (supported, max] or beyond max (Marlin, Sonic): if trim serves such a key (MarlinKZG10 does for bounds <= max, by design), commit of a polynomial whose degree exceeds the supported degree must still fail. Mislabel group: one case in three presents the commitment under a bound outside the enforced set. Three groups per scheme (Marlin, Sonic, IPA) over generated keys (max degree, supported degree, enforced set B, unsorted/duplicated): (i) admission grid - declared bound d drawn from B / from 1..=supported outside B / beyond supported, degree in {d-1,d,d+1}: commit (and open with a relabelled polynomial) must return Err or abort exactly when deg > d or d not in B or deg > supported, and an admissible boundary case must commit, open and verify; (ii) mislabel - commit under d' in B, present as d in B, d != d', deg <= min(d,d'), with the honest proof and with the library prover run on the relabelled polynomial and the old state: not accepted; (iii) the degree-bound part dropped (with and without the label), taken from another polynomial, or replaced by the plain commitment: not accepted. Points for (ii),(iii) are admissible by construction (Marlin, Sonic: p(z) != 0; IPA: also z != 0 and z^(d-d') != 1); polynomials in (iii) are non-constant. Non-trivial: d != max(B) or hiding present, and for (i) |deg - d| <= 1.",
         assumptions: vec![
             "enforced sets stay inside the documented trim domain 1..=supported_degree",
             "degree-bound enforcement of Marlin and IPA is a polynomial identity at the query point: roots of p and points with z^(d-d')=1 are excluded as the modules document",
